@@ -21,7 +21,7 @@ func c03Types() []space.Leaf {
 	for _, l := range space.Leaves(1) {
 		switch l.Name {
 		case "string", "integer", "number", "boolean", "null", "string-date", "string-time", "string-datetime", "string-ipv4", "string-ipv6",
-			"enum-str-typed", "enum-int-typed", "enum-num-typed", "enum-bool-typed", "array-str", "array-array", "array-obj", "object", "object-empty", "map-str", "map-obj", "map-int", "map-int-required",
+			"enum-str-typed", "enum-int-typed", "enum-num-typed", "enum-bool-typed", "array-str", "array-array", "array-obj", "object", "object-empty", "map-str", "map-obj", "map-int", "map-int-required", "map-ref-obj", "map-ref-str", "map-enum-untyped",
 			"integer-minmax", "object-addl-typed", "object-addl-str", "array-3d", "array-nullable-items", "array-null-items":
 			ls = append(ls, l)
 		}
@@ -60,9 +60,13 @@ func c03(ctx *Ctx) {
 						}
 						cfg := baseCfg()
 						cfg.MinSizedInts = sized
+						root, ok := wrapLeaf(pos, l, s, required)
+						if !ok {
+							continue
+						}
 						cases = append(cases, SCase{
 							ID:     space.Sprintf("C03/%s/%s/null=%d/req=%v/sized=%v", pos.Name, l.Name, nu, required, sized),
-							Schema: pos.Wrap(s, required), Cfg: cfg,
+							Schema: root, Cfg: cfg,
 							Axes: map[string]string{"pos": pos.Name, "leaf": l.Name},
 						})
 					}
